@@ -1,6 +1,6 @@
 use crate::util::*;
 use std::io::Write;
-use torrent_bootstrap::{File, Info, Pieces, Torrent};
+use torrent_bootstrap::{BencodeToken, File, Info, Parser, Pieces, Torrent};
 
 fn hash_of(i: usize) -> Vec<u8> {
     let mut h = vec![0u8; 20];
@@ -36,6 +36,52 @@ pub fn layout() {
                 }).collect();
                 writeln!(out, "{} ok {}", id, rendered.join("|")).unwrap();
             }
+            Err(_) => writeln!(out, "{} panic", id).unwrap(),
+        }
+    }
+}
+
+pub fn render_token(t: &BencodeToken, out: &mut String) {
+    match t {
+        BencodeToken::String(s) => out.push_str(&format!("s({},{},{})", if s.value.is_empty() { "-".to_string() } else { hex(&s.value) }, s.start_position, s.continuation_position)),
+        BencodeToken::Integer(i) => out.push_str(&format!("i({},{},{})", i.value, i.start_position, i.continuation_position)),
+        BencodeToken::List(l) => {
+            out.push_str(&format!("l({},{})[", l.start_position, l.continuation_position));
+            for (n, v) in l.value.iter().enumerate() {
+                if n > 0 { out.push(','); }
+                render_token(v, out);
+            }
+            out.push(']');
+        }
+        BencodeToken::Dictionary(d) => {
+            out.push_str(&format!("d({},{})[", d.start_position, d.continuation_position));
+            for (n, (k, v)) in d.keys.iter().zip(d.values.iter()).enumerate() {
+                if n > 0 { out.push(','); }
+                out.push_str(&format!("s({},{},{})", if k.value.is_empty() { "-".to_string() } else { hex(&k.value) }, k.start_position, k.continuation_position));
+                out.push('=');
+                render_token(v, out);
+            }
+            if d.keys.len() != d.values.len() { out.push_str("!keys/values-mismatch"); }
+            out.push(']');
+        }
+    }
+}
+
+/// Case: `<id> <hex of the input>`.
+pub fn decode() {
+    quiet_panics();
+    let out = std::io::stdout();
+    let mut out = std::io::BufWriter::new(out.lock());
+    for line in lines() {
+        let (id, h) = line.split_once(' ').unwrap();
+        let bytes = unhex(h);
+        match guarded(move || Parser::decode(&bytes)) {
+            Ok(Ok(token)) => {
+                let mut s = String::new();
+                render_token(&token, &mut s);
+                writeln!(out, "{} ok {}", id, s).unwrap();
+            }
+            Ok(Err(_)) => writeln!(out, "{} err", id).unwrap(),
             Err(_) => writeln!(out, "{} panic", id).unwrap(),
         }
     }
